@@ -86,6 +86,9 @@ fn build(
     e
 }
 
+/// N = 2, S$ = "A", Q = NaN ((-1)^.5), W = infinity (10^308 * 10).
+const PRESET: &str = "N=2:S$=\"A\":Q=-1^.5:W=10^308*10";
+
 fn full_leaves() -> Vec<Expr> {
     vec![
         num(0.0),
@@ -104,6 +107,9 @@ fn full_leaves() -> Vec<Expr> {
         // of ten (a 309-digit numeral): x / 0.5 overflows to infinity without dividing by zero
         num(1e-17),
         num(1e308),
+        // preset to NaN and to infinity (no numeral spells them): unordered comparisons
+        var("Q"),
+        var("W"),
     ]
 }
 
@@ -115,6 +121,8 @@ fn model() -> Machine {
     let mut m = Machine::new(Default::default(), 0);
     m.vars.insert("N".into(), Val::N(2.0));
     m.vars.insert("S$".into(), Val::S("A".into()));
+    m.vars.insert("Q".into(), Val::N(f64::NAN));
+    m.vars.insert("W".into(), Val::N(f64::INFINITY));
     m
 }
 
@@ -129,7 +137,7 @@ enum Outcome {
 fn run_subject(texts: &[String]) -> Vec<Outcome> {
     let mut s = Sess::new();
     let mut none = std::iter::empty();
-    let _ = s.run_line("N=2:S$=\"A\"", &mut none, 100);
+    let _ = s.run_line(PRESET, &mut none, 100);
     texts
         .iter()
         .map(|t| {
@@ -222,9 +230,7 @@ fn check_tree(e: &Expr, acc: &mut Acc) {
                 detail,
                 case: case_history(
                     &[
-                        Ev::Line("N=2:S$=\"A\"".into()),
-                        Ev::Cont,
-                        Ev::Cont,
+                        Ev::LineToIdle(PRESET.into()),
                         Ev::Line(format!("PRINT {}", min)),
                         Ev::Line(format!("PRINT {}", full)),
                     ],
@@ -352,8 +358,8 @@ fn session_pass(total: &Mutex<Acc>) -> u64 {
     texts.par_chunks(3000).for_each(|chunk| {
         let mut s = Sess::new();
         let mut none = std::iter::empty();
-        let _ = s.run_line("N=2:S$=\"A\"", &mut none, 100);
-        let mut hist = vec![Ev::LineToIdle("N=2:S$=\"A\"".into())];
+        let _ = s.run_line(PRESET, &mut none, 100);
+        let mut hist = vec![Ev::LineToIdle(PRESET.into())];
         for t in chunk {
             let line = format!("PRINT {}", t);
             s.recs.clear();
